@@ -146,7 +146,8 @@ def parse_tables(rd, strict=True):
         src = strip_comments(rd(USE))
         b = norm(fn_body(src, 'convert'))
         for frag in ("let mut orig_ts = node.resolve_transform(AId::Transform, state);", "let mut new_ts = Transform::default();",
-                     "new_ts = new_ts.pre_translate(x, y);", "if let Some(ts) = viewbox_transform(node, child, &use_state) { new_ts = new_ts.pre_concat(ts); }",
+                     "new_ts = new_ts.pre_translate(x, y);", "if let Some(ts) = viewbox_transform(node, child, state) { new_ts = new_ts.pre_concat(ts); }",
+                     "if let Some(clip_rect) = get_clip_rect(node, child, state) {",
                      "orig_ts = orig_ts.pre_concat(new_ts);",
                      "convert_children(node, orig_ts, &use_state, cache, true, parent);"):
             if frag not in b:
@@ -161,6 +162,20 @@ def parse_tables(rd, strict=True):
                      "w = state.use_size.0.unwrap_or(w);", "h = state.use_size.1.unwrap_or(h);"):
             if frag not in s:
                 raise Missing("use_node.rs convert_svg: fragment %r not found" % frag)
+        # since fb5447a convert_svg only sets up the viewport: no second resolve_transform / convert_group on the element
+        for frag in ("let mut g = clip_element(node, clip_rect, Transform::default(), state, cache);",
+                     "convert_svg_children(node, new_ts, &new_state, cache, &mut g);",
+                     "} else { convert_svg_children(node, new_ts, &new_state, cache, parent); }"):
+            if frag not in s:
+                raise Missing("use_node.rs convert_svg: fragment %r not found" % frag)
+        if "resolve_transform" in s or "convert_group" in s:
+            raise Missing("use_node.rs convert_svg resolves the element's own transform / group attributes again")
+        c = norm(fn_body(src, 'convert_svg_children'))
+        for frag in ("if transform.is_identity() { converter::convert_children(node, state, cache, parent); return; }",
+                     "let mut g = Group { transform, abs_transform: parent.abs_transform.pre_concat(transform), ..Group::empty() };",
+                     "converter::convert_children(node, state, cache, &mut g);"):
+            if frag not in c:
+                raise Missing("use_node.rs convert_svg_children: fragment %r not found" % frag)
         g = norm(fn_body(src, 'get_clip_rect'))
         for frag in ('Some("visible") | Some("auto")', "NonZeroRect::from_xywh(x, y, w, h)"):
             if frag not in g:
